@@ -388,6 +388,9 @@ class SArr(Sym):
             return
         if isinstance(idx, (SArr, SPerm)):
             raise OutOfSubset('fancy assignment')
+        if isinstance(idx, tuple) and any(isinstance(i, (SArr, SPerm, list)) for i in idx):
+            # a[mask, :] = v would go through __getitem__'s copy and be lost silently: fail closed
+            raise OutOfSubset('assignment through a mask / index array inside a tuple index')
         target = self[idx] if not (isinstance(idx, slice) and idx == slice(None)) else self
         if not isinstance(target, SArr):
             # single element: rebuild as a 0-d write
